@@ -8,6 +8,7 @@ import ChaiVerif.Drv.Env
 import ChaiVerif.Drv.Dispatch
 import ChaiVerif.Drv.Chai
 import ChaiVerif.Drv.Pos
+import ChaiVerif.Drv.Rc
 open ChaiVerif.Drv
 
 def main (args : List String) : IO UInt32 := do
@@ -23,6 +24,7 @@ def main (args : List String) : IO UInt32 := do
   | ["chai"] => lineLoop (fun l => let r := (chaiLine l).replace "\n" " "; "model=" ++ r ++ "\tspec=" ++ r); return 0
   | ["chai-print"] => lineLoop (fun l => (chaiLine ("print " ++ l)).replace "\n" " "); return 0
   | ["pos"] => lineLoop posLine; return 0
+  | ["rc"] => lineLoop rcLine; return 0
   | ["chai-tree"] => lineLoop (fun l => (chaiLine ("tree " ++ l)).replace "\n" " "); return 0
   | ["arith-abi"] => (abiLines.forM IO.println); return 0
   | _ => IO.eprintln "usage: chaimodel <mode>"; return 2
